@@ -11,9 +11,11 @@ import Moyo.Model.DriverStage
 import Moyo.Model.DriverS13
 import Moyo.Model.DriverS5
 import Moyo.Model.DriverS6
+import Moyo.Model.DriverS9
 import Moyo.Model.DriverC19
 import Moyo.Model.DriverC20
 import Moyo.Model.DriverMag
+import Moyo.Model.DriverMagStage
 import Moyo.Generated.HallTable
 import Moyo.Generated.ArithTable
 import Moyo.Generated.MagTable
@@ -146,12 +148,14 @@ def handlers : List (String → Option String) := [
   Moyo.DriverS13.step?,
   Moyo.DriverS5.step?,
   Moyo.DriverS6.step?,
+  Moyo.DriverS9.step?,
   Moyo.DriverC08.step?,
   Moyo.DriverC14.step?,
   Moyo.DriverC16.step?,
   Moyo.DriverC19.step?,
   Moyo.DriverC20.step?,
   Moyo.DriverMag.step?,
+  Moyo.DriverMagStage.step?,
   stepCore
 ]
 
